@@ -70,3 +70,5 @@ func decodeLine(c coder.Coder, ik []byte) (res string) {
 	}
 	return fmt.Sprintf("dec ok %s %d", hx(k), r)
 }
+
+func init() { register("coder", func(map[string]string) suite { return &coderSuite{} }) }
